@@ -193,7 +193,23 @@ func (wpi *wpIterator) init(buf []byte) (err error) {
 	wpi.cur = 0
 	wpi.read = false
 
-	return
+	// Validate the whole packet before anything is written: every announced event must decode and its own fields
+	// text must parse. Get() reports a decode error as io.EOF and field.Parse() swallows errors, so without this
+	// check a truncated packet or an unparsable fields text would be acknowledged with part of the data.
+	p := wpi.pos
+	for i := 0; i < wpi.recs; i++ {
+		var le api.LogEvent
+		n, err = unmarshalLogEvent(buf[p:], &le, false)
+		if err != nil {
+			return errors.Wrapf(err, "could not decode event %d of %d", i, wpi.recs)
+		}
+		if _, err = field.NewFieldsFromKVString(le.Fields); err != nil {
+			return errors.Wrapf(err, "could not parse fields of event %d", i)
+		}
+		p += n
+	}
+
+	return nil
 }
 
 // Next is a part of records.Iterator
